@@ -126,36 +126,46 @@ pub fn capacity<S: Src>(s: &mut S) {
         let code_words = ((2 * dflash + dc + if dc % 2 != 0 { dc.signum() } else { 0 }) / 2).max(1);
         let ee = (dee + de).max(0);
         let rm = (dram + dr).max(0);
-        let mut src = format!(".device {}\n.cseg\n.org {}\nnop\n", dev, code_words - 1);
-        if ee > 0 {
-            src.push_str(&format!(".eseg\n.byte {}\n", ee));
-        }
-        if rm > 0 {
-            src.push_str(&format!(".dseg\n.byte {}\n", rm));
-        }
-        s.note_s("api_source", &src);
-        let want_ok = 2 * code_words <= 2 * dflash && ee <= dee && rm <= dram;
-        let r = std::panic::catch_unwind(|| avra_lib::builder::build_str(&src));
-        match &r {
-            Err(_) => s.note_s("api_result", "PANIC"),
-            Ok(Err(e)) => s.note_s("api_result", &format!("Err({})", e)),
-            Ok(Ok(b)) => s.note_s(
-                "api_result",
-                &format!("Ok(code={} eeprom={} ram_filling={} sizes={}/{}/{})", b.code.len(), b.eeprom.len(), b.ram_filling, b.flash_size, b.eeprom_size, b.ram_size),
-            ),
-        }
         let _ = fits;
-        let good = match &r {
-            Err(_) => false,
-            Ok(Err(_)) => !want_ok,
-            Ok(Ok(b)) => {
-                want_ok
-                    && b.flash_size as i64 == dflash
-                    && b.eeprom_size as i64 == dee
-                    && b.ram_size as i64 == dram
-                    && b.ram_filling as i64 == rm
+        // second rendering: the counterexample's *absolute* usage figures on the same real device
+        // (a comparison that wraps or truncates only shows far above the capacity, where the
+        // clamped relation cannot reach)
+        let abs_words = ((code_len as i64 + 1) / 2).max(1);
+        let mut good = true;
+        for (cw, e, r_) in [(code_words, ee, rm), (abs_words, eeprom_len as i64, ram_fill as i64)] {
+            let mut src = format!(".device {}\n.cseg\n.org {}\nnop\n", dev, cw - 1);
+            if e > 0 {
+                src.push_str(&format!(".eseg\n.byte {}\n", e));
             }
-        };
+            if r_ > 0 {
+                src.push_str(&format!(".dseg\n.byte {}\n", r_));
+            }
+            s.note_s("api_source", &src);
+            let want_ok = 2 * cw <= 2 * dflash && e <= dee && r_ <= dram;
+            let r = std::panic::catch_unwind(|| avra_lib::builder::build_str(&src));
+            match &r {
+                Err(_) => s.note_s("api_result", "PANIC"),
+                Ok(Err(e)) => s.note_s("api_result", &format!("Err({})", e)),
+                Ok(Ok(b)) => s.note_s(
+                    "api_result",
+                    &format!("Ok(code={} eeprom={} ram_filling={} sizes={}/{}/{})", b.code.len(), b.eeprom.len(), b.ram_filling, b.flash_size, b.eeprom_size, b.ram_size),
+                ),
+            }
+            let ok_here = match &r {
+                Err(_) => false,
+                Ok(Err(_)) => !want_ok,
+                Ok(Ok(b)) => {
+                    want_ok
+                        && b.flash_size as i64 == dflash
+                        && b.eeprom_size as i64 == dee
+                        && b.ram_size as i64 == dram
+                        && b.ram_filling as i64 == r_
+                }
+            };
+            if !ok_here {
+                good = false;
+            }
+        }
         chk!(s, good, "C12: capacity limit / reported figures wrong on a real device for the same usage-to-capacity relation");
     }
 }
